@@ -952,23 +952,23 @@ Proof.
   change (last (w :: w' :: t') d) with (last (w' :: t') d). apply (IH (glast w)); auto. discriminate.
 Qed.
 
-(* the answers of the model to Read By Group Type lo..hi, as a client decodes them *)
-Definition rbg_responder (c : cfg) (out_size lo hi : N) : option (list N * N) :=
-  match walk_first (groups c) lo hi (out_size - 2) with
+(* the answers of a group discovery lo..hi, as a client decodes them: the declaration handles and the end
+   group handle of the last group, behind which the client continues *)
+Definition group_responder (walk : N -> N -> list (N * N * service_decl)) (lo hi : N) : option (list N * N) :=
+  match walk lo hi with
   | [] => None
   | g :: W => Some (map gfirst (g :: W), glast (last (g :: W) g))
   end.
 
-(* the declaration handles of the declared primary services *)
-Definition primary_starts (c : cfg) : list N :=
-  map gfirst (filter (fun g => negb (s_secondary (snd g))) (groups c)).
+Definition selected_range (P : N * N * service_decl -> bool) (lo hi : N) (g : N * N * service_decl) : bool :=
+  in_range lo hi (gfirst g) && P g.
 
-Lemma primary_starts_range c lo hi :
-  hrange (primary_starts c) lo hi = map gfirst (filter (group_wanted lo hi) (groups c)).
+Lemma selected_starts_range c P lo hi :
+  hrange (map gfirst (filter P (groups c))) lo hi = map gfirst (filter (selected_range P lo hi) (groups c)).
 Proof.
-  unfold hrange, primary_starts. induction (groups c) as [|g t IH]; [reflexivity|].
-  cbn [filter]. unfold group_wanted at 1. fold (gfirst g).
-  destruct (s_secondary (snd g)); cbn [negb andb map filter]; rewrite ?andb_false_r; [exact IH|].
+  unfold hrange. induction (groups c) as [|g t IH]; [reflexivity|].
+  cbn [filter]. unfold selected_range at 1.
+  destruct (P g); cbn [negb andb map filter]; rewrite ?andb_false_r; [|exact IH].
   rewrite andb_true_r. destruct (in_range lo hi (gfirst g)); cbn [map]; rewrite IH; reflexivity.
 Qed.
 
@@ -982,25 +982,35 @@ Proof.
   change (last (x :: y :: t') d) with (last (y :: t') d). apply IH. discriminate.
 Qed.
 
-Theorem rbg_discover_all c out_size hi :
-  wf c -> no_includes c -> 23 <= out_size ->
-  forall lo, 1 <= lo ->
-    discover_all (S (length (groups c))) (rbg_responder c out_size) lo hi = hrange (primary_starts c) lo hi.
+Lemma last_in_list {A : Type} (l : list A) (d : A) : l <> [] -> In (last l d) l.
 Proof.
-  intros Hw Hn Ho lo Hlo.
+  induction l as [|x t IH]; intros H; [congruence|].
+  destruct t as [|y t']; [left; reflexivity|]. right. apply IH. discriminate.
+Qed.
+
+(* a client that continues behind the last end group handle enumerates the selected services exactly,
+   whenever every answer is a non-empty prefix of the selected services in range *)
+Theorem groups_discover_all c P walk hi :
+  wf c -> no_includes c ->
+  (forall lo, exists rest, filter (selected_range P lo hi) (groups c) = walk lo hi ++ rest
+                           /\ (walk lo hi = [] -> filter (selected_range P lo hi) (groups c) = [])) ->
+  forall lo, 1 <= lo ->
+    discover_all (S (length (groups c))) (group_responder walk) lo hi = hrange (map gfirst (filter P (groups c))) lo hi.
+Proof.
+  intros Hw Hn Hwalk lo Hlo.
   pose proof (groups_sorted c Hw Hn) as Hs.
   apply discover_all_enumerates; auto.
-  - unfold primary_starts. apply blocks_sorted_firsts. apply blocks_sorted_filter. exact Hs.
-  - intros h Hin. unfold primary_starts in Hin. apply in_map_iff in Hin. destruct Hin as [g [<- Hg]].
+  - apply blocks_sorted_firsts. apply blocks_sorted_filter. exact Hs.
+  - intros h Hin. apply in_map_iff in Hin. destruct Hin as [g [<- Hg]].
     apply filter_In in Hg. destruct Hg as [Hg _].
     assert (X : In (gentry g) (map gentry (groups c))) by (apply in_map; auto).
     rewrite <- table_services in X by auto. apply filter_In in X. destruct X as [X _].
     apply (in_map fst) in X. rewrite table_handles in X by auto. cbn [gentry fst] in X.
     pose proof (assign_upper c _ Hw Hn X). unfold gfirst. lia.
-  - intros lo' Hlo1 Hlo2. unfold rbg_responder.
-    destruct (walk_first_spec (groups c) lo' hi (out_size - 2) ltac:(lia)) as (rest & W1 & W2 & _).
-    rewrite primary_starts_range.
-    destruct (walk_first (groups c) lo' hi (out_size - 2)) as [|g W] eqn:Ew.
+  - intros lo' Hlo1 Hlo2. unfold group_responder.
+    destruct (Hwalk lo') as (rest & W1 & W2).
+    rewrite selected_starts_range.
+    destruct (walk lo' hi) as [|g W] eqn:Ew.
     + rewrite W2 by reflexivity. reflexivity.
     + assert (Hsf : blocks_sorted 0 ((g :: W) ++ rest) = true) by (rewrite <- W1; apply blocks_sorted_filter; exact Hs).
       assert (Hne : g :: W <> []) by discriminate.
@@ -1011,20 +1021,14 @@ Proof.
       * discriminate.
       * apply (blocks_sorted_last_le 0 _ rest); auto.
       * intros h Hin Hlt.
-        (* h is the start of a primary service behind the last reported one: it is in [rest] or beyond hi *)
-        unfold primary_starts in Hin. apply in_map_iff in Hin. destruct Hin as [g' [<- Hg']].
-        apply filter_In in Hg'. destruct Hg' as [Hg1 Hg2].
-        assert (Hall : blocks_sorted 0 (filter (fun x => negb (s_secondary (snd x))) (groups c)) = true)
-          by (apply blocks_sorted_filter; exact Hs).
-        (* position argument on the sorted list of all primary groups *)
-        assert (Hin' : In g' (filter (fun x => negb (s_secondary (snd x))) (groups c))) by (apply filter_In; auto).
-        assert (Hlast : In (last (g :: W) g) (filter (fun x => negb (s_secondary (snd x))) (groups c))).
-        { assert (X : In (last (g :: W) g) (filter (group_wanted lo' hi) (groups c))).
-          { rewrite W1. apply in_or_app. left. clear. generalize g at 1 3. induction W as [|w t IH]; intros d; [left; reflexivity|].
-            change (last (d :: w :: t) g) with (last (w :: t) g). right. apply IH. }
+        apply in_map_iff in Hin. destruct Hin as [g' [<- Hg']].
+        assert (Hall : blocks_sorted 0 (filter P (groups c)) = true) by (apply blocks_sorted_filter; exact Hs).
+        assert (Hlast : In (last (g :: W) g) (filter P (groups c))).
+        { assert (X : In (last (g :: W) g) (filter (selected_range P lo' hi) (groups c))).
+          { rewrite W1. apply in_or_app. left. apply last_in_list. discriminate. }
           apply filter_In in X. destruct X as [X1 X2]. apply filter_In. split; auto.
-          unfold group_wanted in X2. apply andb_true_iff in X2. tauto. }
-        revert Hall Hin' Hlast Hlt. generalize (filter (fun x => negb (s_secondary (snd x))) (groups c)) (last (g :: W) g) 0.
+          unfold selected_range in X2. apply andb_true_iff in X2. tauto. }
+        revert Hall Hg' Hlast Hlt. generalize (filter P (groups c)) (last (g :: W) g) 0.
         clear. intros L w p. revert p. induction L as [|x t IH]; intros p Hall Hin' Hlast Hlt; [destruct Hin'|].
         cbn [blocks_sorted] in Hall. apply andb_true_iff in Hall. destruct Hall as [Ha H3]. apply andb_true_iff in Ha. destruct Ha as [H1 H2].
         destruct Hlast as [->|Hlast].
@@ -1033,12 +1037,637 @@ Proof.
            cbn [blocks_sorted] in H3. apply andb_true_iff in H3. destruct H3 as [H3 H5]. apply andb_true_iff in H3. destruct H3 as [H3 H4].
            destruct Hin' as [->|Hin']; [lia|]. specialize (IHr _ H5 Hin'). lia.
         -- destruct Hin' as [->|Hin']; [|apply (IH (glast x)); auto].
-           (* g' in front of w: then gfirst g' < gfirst w, contradiction *)
            exfalso. assert (glast g' < gfirst w); [|lia].
            clear IH Hlt. revert H3 Hlast. generalize (glast g'). induction t as [|y r IHr]; intros q H3 Hlast; [destruct Hlast|].
            cbn [blocks_sorted] in H3. apply andb_true_iff in H3. destruct H3 as [H3 H5]. apply andb_true_iff in H3. destruct H3 as [H3 H4].
            destruct Hlast as [->|Hlast]; [lia|]. specialize (IHr _ H5 Hlast). lia.
       * exists (map gfirst rest). rewrite W1, map_app. reflexivity.
-  - rewrite primary_starts_range, map_length.
-    assert (length (filter (group_wanted lo hi) (groups c)) <= length (groups c))%nat by apply filter_len_le. lia.
+  - rewrite selected_starts_range, map_length.
+    assert (length (filter (selected_range P lo hi) (groups c)) <= length (groups c))%nat by apply filter_len_le. lia.
+Qed.
+
+(* Read By Group Type *)
+Definition rbg_responder (c : cfg) (out_size : N) : N -> N -> option (list N * N) :=
+  group_responder (fun lo hi => walk_first (groups c) lo hi (out_size - 2)).
+
+(* the declaration handles of the declared primary services *)
+Definition primary_starts (c : cfg) : list N :=
+  map gfirst (filter (fun g => negb (s_secondary (snd g))) (groups c)).
+
+Theorem rbg_discover_all c out_size hi :
+  wf c -> no_includes c -> 23 <= out_size ->
+  forall lo, 1 <= lo ->
+    discover_all (S (length (groups c))) (rbg_responder c out_size) lo hi = hrange (primary_starts c) lo hi.
+Proof.
+  intros Hw Hn Ho lo Hlo. unfold rbg_responder, primary_starts. apply groups_discover_all; auto.
+  intros lo'. destruct (walk_first_spec (groups c) lo' hi (out_size - 2) ltac:(lia)) as (rest & W1 & W2 & _).
+  exists rest. split; [exact W1|exact W2].
+Qed.
+
+(* ================================================================== Part B3: a value attribute follows its declaration *)
+Definition is_value (a : attr) : bool := match a with AValue _ _ _ _ => true | _ => false end.
+
+Definition value_pred (l : list attr) : Prop :=
+  forall j s ch g k, nth_error l (S j) = Some (AValue s ch g k) -> nth_error l j = Some (ACharDecl s ch).
+Definition head_no_value (l : list attr) : Prop :=
+  match l with a :: _ => is_value a = false | [] => True end.
+
+Lemma value_pred_app l1 l2 : value_pred l1 -> value_pred l2 -> head_no_value l2 -> value_pred (l1 ++ l2).
+Proof.
+  intros H1 H2 Hh j s ch g k H.
+  destruct (Nat.lt_ge_cases (S j) (length l1)) as [Hlt|Hge].
+  - rewrite nth_error_app1 in * by lia. eapply H1; eauto.
+  - rewrite nth_error_app2 in H by lia.
+    destruct (Nat.eq_dec (S j) (length l1)) as [He|Hne].
+    + replace (S j - length l1)%nat with O in H by lia. destruct l2 as [|a t]; [discriminate H|].
+      cbn [nth_error] in H. inversion H; subst a. cbn in Hh. discriminate Hh.
+    + rewrite nth_error_app2 by lia. replace (S j - length l1)%nat with (S (j - length l1)) in H by lia. eapply H2; eauto.
+Qed.
+
+Lemma value_pred_none l : (forall a, In a l -> is_value a = false) -> value_pred l.
+Proof.
+  intros H j s ch g k Hn. apply nth_error_In in Hn. apply H in Hn. discriminate Hn.
+Qed.
+
+Lemma char_tail_no_value s ch cci a : In a (char_tail_attrs s ch cci) -> is_value a = false.
+Proof.
+  unfold char_tail_attrs. intros H.
+  apply in_app_or in H. destruct H as [H|H]; [destruct (has_cccd ch); [destruct H as [<-|[]]; reflexivity|destruct H]|].
+  apply in_app_or in H. destruct H as [H|H]; [destruct (c_name ch); [destruct H as [<-|[]]; reflexivity|destruct H]|].
+  apply in_map_iff in H. destruct H as [d [<- _]]. reflexivity.
+Qed.
+
+Lemma char_attrs_value_pred s ch g cci : value_pred (char_attrs s ch g cci).
+Proof.
+  intros j s' ch' g' k' H. unfold char_attrs in *. destruct j as [|j]; cbn [nth_error] in *.
+  - inversion H; subst. reflexivity.
+  - apply nth_error_In in H. apply char_tail_no_value in H. discriminate H.
+Qed.
+
+Lemma chars_value_pred s cs : value_pred (flat_map (fun ch => char_attrs s ch O 0) cs) /\ head_no_value (flat_map (fun ch => char_attrs s ch O 0) cs).
+Proof.
+  induction cs as [|ch t [IH1 IH2]]; cbn [flat_map]; [split; [intros j ? ? ? ? H; destruct j; discriminate H|exact I]|].
+  split; [|reflexivity]. apply value_pred_app; auto. apply char_attrs_value_pred.
+Qed.
+
+Lemma svc_value_pred s : value_pred (svc_decl_attrs s).
+Proof.
+  unfold svc_decl_attrs.
+  change (AService s :: map AInclude (s_includes s) ++ flat_map (fun ch => char_attrs s ch O 0) (s_chars s))
+    with ((AService s :: map AInclude (s_includes s)) ++ flat_map (fun ch => char_attrs s ch O 0) (s_chars s)).
+  destruct (chars_value_pred s (s_chars s)) as [H1 H2]. apply value_pred_app; auto.
+  apply value_pred_none. intros a [<-|H]; [reflexivity|]. apply in_map_iff in H. destruct H as [u [<- _]]. reflexivity.
+Qed.
+
+Lemma decl_value_pred c : value_pred (decl_attrs c).
+Proof.
+  unfold decl_attrs. induction (services c) as [|s t IH]; cbn [flat_map]; [intros j ? ? ? ? H; destruct j; discriminate H|].
+  apply value_pred_app; auto; [apply svc_value_pred|]. destruct t; [exact I|reflexivity].
+Qed.
+
+(* for the model: the attribute in front of a value attribute is its characteristic declaration *)
+Lemma attribute_before_value c i s ch g k :
+  attribute_at c i = Some (AValue s ch g k) -> i <> 0 /\ attribute_at c (i - 1) = Some (ACharDecl s ch).
+Proof.
+  intros H. pose proof (attribute_at_decl c i) as X. rewrite H in X. cbn [option_map erase] in X. symmetry in X.
+  assert (Hi : i <> 0).
+  { intros ->. cbn [N.to_nat] in X. unfold decl_attrs in X. destruct (services c) as [|s0 t]; [discriminate X|].
+    cbn [flat_map svc_decl_attrs app nth_error] in X. discriminate X. }
+  split; auto. replace (N.to_nat i) with (S (N.to_nat (i - 1))) in X by lia.
+  apply decl_value_pred in X. pose proof (attribute_at_decl c (i - 1)) as Y. rewrite X in Y.
+  destruct (attribute_at c (i - 1)) as [a|]; [|discriminate Y]. cbn [option_map] in Y. inversion Y as [Y'].
+  destruct a; cbn [erase] in Y'; try discriminate Y'. rewrite Y'. reflexivity.
+Qed.
+
+(* only value attributes carry the internal marker of 128 bit uuids *)
+Lemma marker_is_value c a : wf c -> In a (decl_attrs c) -> attr_uuid a = internal_128bit_uuid -> is_value a = true.
+Proof.
+  intros Hw Hin Hu. destruct a; try reflexivity; cbn [attr_uuid] in Hu; try discriminate Hu.
+  - destruct (s_secondary s); discriminate Hu.
+  - (* a descriptor: its uuid is checked by wf *)
+    exfalso. unfold decl_attrs in Hin. apply in_flat_map in Hin. destruct Hin as [s [Hs Hin]].
+    unfold svc_decl_attrs in Hin. destruct Hin as [Hin|Hin]; [discriminate Hin|].
+    apply in_app_or in Hin. destruct Hin as [Hin|Hin]; [apply in_map_iff in Hin; destruct Hin as [? [X _]]; discriminate X|].
+    apply in_flat_map in Hin. destruct Hin as [ch [Hch Hin]]. unfold char_attrs in Hin.
+    destruct Hin as [Hin|[Hin|Hin]]; try discriminate Hin. unfold char_tail_attrs in Hin.
+    apply in_app_or in Hin. destruct Hin as [Hin|Hin]; [destruct (has_cccd ch); [destruct Hin as [X|[]]; discriminate X|destruct Hin]|].
+    apply in_app_or in Hin. destruct Hin as [Hin|Hin]; [destruct (c_name ch); [destruct Hin as [X|[]]; discriminate X|destruct Hin]|].
+    apply in_map_iff in Hin. destruct Hin as [d [Hd Hin]]. inversion Hd; subst u value.
+    unfold wf, wf_b in Hw. repeat (apply andb_true_iff in Hw; destruct Hw as [Hw ?]).
+    match goal with X : forallb (svc_static_ok c) (services c) = true |- _ => rewrite forallb_forall in X; specialize (X s Hs) end.
+    unfold svc_static_ok in *. repeat (match goal with X : _ && _ = true |- _ => apply andb_true_iff in X; destruct X end).
+    match goal with X : forallb char_static_ok (s_chars s) = true |- _ => rewrite forallb_forall in X; specialize (X ch Hch) end.
+    unfold char_static_ok in *. repeat (match goal with X : _ && _ = true |- _ => apply andb_true_iff in X; destruct X end).
+    match goal with X : forallb _ (c_descs ch) = true |- _ => rewrite forallb_forall in X; specialize (X d Hin); cbv beta in X end.
+    repeat (match goal with X : _ && _ = true |- _ => apply andb_true_iff in X; destruct X end).
+    match goal with X : negb (fst d =? internal_128bit_uuid) = true, Y : fst d = internal_128bit_uuid |- _ =>
+      rewrite Y, N.eqb_refl in X; discriminate X end.
+Qed.
+
+(* ================================================================== Part D2: Find Information *)
+Lemma skipn_nth_error (A : Type) (l : list A) n x : nth_error l n = Some x -> skipn n l = x :: skipn (S n) l.
+Proof.
+  revert l; induction n as [|n IH]; intros l H; destruct l as [|y t]; try discriminate H.
+  - inversion H. reflexivity.
+  - cbn [nth_error] in H. cbn [skipn]. apply IH. exact H.
+Qed.
+
+Lemma table_step c i :
+  wf c -> no_includes c -> i < number_of_attributes c ->
+  exists a, attribute_at c i = Some a
+            /\ skipn (N.to_nat i) (table c) = (handle_by_index c i, erase a) :: skipn (N.to_nat (i + 1)) (table c)
+            /\ In (erase a) (decl_attrs c).
+Proof.
+  intros Hw Hn Hi. destruct (table_nth c i Hw Hn Hi) as [a [H1 H2]]. exists a. split; auto. split.
+  - rewrite (skipn_nth_error _ _ _ _ H2). repeat f_equal. lia.
+  - pose proof (attribute_at_decl c i) as X. rewrite H1 in X. cbn [option_map] in X. symmetry in X. eapply nth_error_In; eauto.
+Qed.
+
+Lemma table_end c i : wf c -> no_includes c -> number_of_attributes c <= i -> skipn (N.to_nat i) (table c) = [].
+Proof. intros Hw Hn Hi. apply skipn_all2. rewrite table_length by auto. lia. Qed.
+
+Definition is16 (a : attr) : bool := negb (attr_uuid a =? internal_128bit_uuid).
+Definition fsize (only16 : bool) : N := if only16 then 4 else 18.
+Definition fenc (e : N * attr) : list N := le16 (fst e) ++ uuid_bytes (attr_type (snd e)).
+
+Lemma is16_erase a : is16 (erase a) = is16 a.
+Proof. unfold is16. rewrite erase_uuid. reflexivity. Qed.
+
+(* collect_handle_uuid_tuples as a walk over the table *)
+Fixpoint fi_walk (T : list (N * attr)) (e : N) (only16 : bool) (avail : N) : list (N * attr) :=
+  match T with
+  | [] => []
+  | x :: T' =>
+      if (fst x <=? e) && (fsize only16 <=? avail) then
+        if Bool.eqb only16 (is16 (snd x)) then x :: fi_walk T' e only16 (avail - fsize only16)
+        else fi_walk T' e only16 avail
+      else []
+  end.
+
+Lemma len_dropN_seg (A : Type) n (l : list A) : len (dropN n l) = len l - n.
+Proof. unfold len, dropN. rewrite skipn_length. lia. Qed.
+
+(* the uuid written for an attribute with a 128 bit type *)
+Lemma uuid128_bytes c i a u :
+  wf c -> attribute_at c i = Some a -> In (erase a) (decl_attrs c) -> is16 a = false ->
+  uuid128_of_decl c i = Some u -> u = uuid_bytes (attr_type a).
+Proof.
+  intros Hw Ha Hin H16 Hu. unfold is16 in H16. apply negb_false_iff, N.eqb_eq in H16.
+  assert (Hv : is_value (erase a) = true) by (apply (marker_is_value c); auto; rewrite erase_uuid; auto).
+  destruct a as [| | |s ch g k| | |]; try discriminate Hv.
+  destruct (attribute_before_value c i s ch g k Ha) as [Hi Hb].
+  unfold uuid128_of_decl in Hu. replace (i =? 0) with false in Hu by lia. rewrite Hb in Hu.
+  unfold char_decl_value in Hu. cbv zeta in Hu.
+  destruct (handle_by_index c (1 + 1) =? invalid_handle); [discriminate Hu|]. cbn [attr_type].
+  match type of Hu with (if ?x then _ else _) = _ => destruct x; [|discriminate Hu] end.
+  inversion Hu. reflexivity.
+Qed.
+
+Lemma fi_loop c e only16 out_end : wf c -> no_includes c ->
+  forall fuel start b out b' out',
+  (N.to_nat (number_of_attributes c - start) < fuel)%nat ->
+  2 <= out -> out <= out_end -> out_end <= len b ->
+  collect_handle_uuid_tuples fuel c start e only16 b out out_end = Some (b', out') ->
+  let R := fi_walk (skipn (N.to_nat start) (table c)) e only16 (out_end - out) in
+  seg 0 2 b' = seg 0 2 b /\ seg 2 out' b' = seg 2 out b ++ flat_map fenc R
+  /\ out' = out + fsize only16 * len R /\ out' <= out_end /\ len b' = len b.
+Proof.
+  intros Hw Hn. induction fuel as [|f IH]; intros start b out b' out' Hf Ho1 Ho2 Hl H; [lia|].
+  cbn [collect_handle_uuid_tuples] in H. cbv zeta in H. fold (fsize only16) in H.
+  destruct (start <? number_of_attributes c) eqn:Es.
+  - destruct (table_step c start Hw Hn ltac:(lia)) as (a & Ha & Hsk & Hin). rewrite Hsk. cbn [fi_walk fst snd].
+    cbn [andb] in H. rewrite is16_erase.
+    destruct ((handle_by_index c start <=? e) && (fsize only16 <=? out_end - out)) eqn:Ec.
+    + rewrite Ha in H. fold (is16 a) in H.
+      assert (Hfs : fsize only16 <= out_end - out) by lia.
+      destruct (Bool.eqb only16 (is16 a)) eqn:Ee.
+      * destruct (put b out (le16 (handle_by_index c start))) as [b1|] eqn:E1; [|discriminate].
+        destruct (if is16 a then Some (le16 (attr_uuid a)) else uuid128_of_decl c start) as [u|] eqn:Eu; [|discriminate].
+        destruct (put b1 (out + 2) u) as [b2|] eqn:E2; [|discriminate].
+        assert (Hu : u = uuid_bytes (attr_type a) /\ len u = fsize only16 - 2).
+        { apply eqb_prop in Ee. subst only16. destruct (is16 a) eqn:E16.
+          - inversion Eu; subst u. split; [|reflexivity].
+            unfold is16 in E16. destruct a as [| | |s ch g k| | |]; try reflexivity.
+            cbn [attr_type attr_uuid] in *. destruct (c_uuid ch); [reflexivity|discriminate E16].
+          - assert (X := uuid128_bytes c start a u Hw Ha Hin E16 Eu). split; auto.
+            unfold uuid128_of_decl in Eu. destruct (start =? 0); [discriminate|].
+            destruct (attribute_at c (start - 1)) as [[]|]; try discriminate.
+            destruct (char_decl_value c c0 1); [|discriminate].
+            destruct (len l =? 19) eqn:E19; [|discriminate]. inversion Eu; subst u.
+            rewrite len_dropN_seg. cbn [fsize]. lia. }
+        destruct Hu as [Hu1 Hu2].
+        pose proof (put_length _ _ _ _ E1) as L1. pose proof (put_length _ _ _ _ E2) as L2.
+        apply IH in H; try lia. destruct H as (I1 & I2 & I3 & I4 & I5).
+        replace (out_end - (out + fsize only16)) with (out_end - out - fsize only16) in I2, I3 by lia.
+        replace (N.to_nat (start + 1)) with (N.to_nat (start + 1)) in * by lia.
+        cbn [flat_map]. unfold fenc at 1. cbn [fst snd]. rewrite erase_type.
+        assert (Hs2 : 2 <= fsize only16) by (destruct only16; cbn; lia).
+        repeat split; try lia.
+        -- rewrite I1. rewrite (seg_put_other _ _ _ _ 0 2 E2) by lia. apply (seg_put_other _ _ _ _ 0 2 E1). lia.
+        -- rewrite I2. replace (out + fsize only16) with ((out + 2) + len u) by lia.
+           rewrite (seg_put_append _ _ _ _ 2 E2) by lia.
+           replace (out + 2) with (out + len (le16 (handle_by_index c start))) by (rewrite le16_len; lia).
+           rewrite (seg_put_append _ _ _ _ 2 E1) by lia. rewrite <- Hu1, <- !app_assoc. reflexivity.
+        -- rewrite I3. unfold len. cbn [length]. lia.
+      * apply IH in H; try lia. exact H.
+    + inversion H; subst b' out'. cbn [flat_map]. rewrite app_nil_r. unfold len. cbn. repeat split; lia.
+  - cbn [andb] in H. inversion H; subst b' out'. rewrite table_end by (auto; lia). cbn [fi_walk flat_map].
+    rewrite app_nil_r. unfold len. cbn. repeat split; lia.
+Qed.
+
+(* ---- the table from a handle on *)
+Definition from_handle (lo : N) (T : list (N * attr)) : list (N * attr) := filter (fun x => lo <=? fst x) T.
+
+Lemma first_ge_invalid_all_lt l h i : i + N.of_nat (length l) < invalid_index -> first_ge l h i = invalid_index -> forall x, In x l -> x < h.
+Proof.
+  revert i; induction l as [|y t IH]; intros i Hb H x Hin; [destruct Hin|]. cbn [first_ge length] in *.
+  destruct (h <=? y) eqn:E; [unfold invalid_index in *; lia|].
+  destruct Hin as [<-|Hin]; [lia|]. apply (IH (i + 1)); auto. lia.
+Qed.
+
+Lemma skipn_first_ge p (T : list (N * attr)) lo i :
+  increasing_from p (map fst T) = true -> first_ge (map fst T) lo i <> invalid_index ->
+  skipn (N.to_nat (first_ge (map fst T) lo i - i)) T = from_handle lo T.
+Proof.
+  revert p i; induction T as [|x t IH]; intros p i Hs Hv; cbn [map first_ge] in *; [congruence|].
+  cbn [increasing_from] in Hs. apply andb_true_iff in Hs. destruct Hs as [Hs1 Hs2].
+  unfold from_handle. cbn [filter]. destruct (lo <=? fst x) eqn:E.
+  - replace (i - i) with 0 by lia. cbn [N.to_nat skipn]. f_equal. symmetry. apply filter_all_true.
+    intros y Hy. apply (in_map fst) in Hy. pose proof (increasing_from_lower _ _ _ Hs2 Hy). lia.
+  - destruct (first_ge_range (map fst t) lo (i + 1)) as [Hr|Hr]; [congruence|].
+    replace (N.to_nat (first_ge (map fst t) lo (i + 1) - i)) with (S (N.to_nat (first_ge (map fst t) lo (i + 1) - (i + 1)))) by lia.
+    cbn [skipn]. apply (IH (fst x)); auto.
+Qed.
+
+Lemma from_first_index c lo :
+  wf c -> no_includes c ->
+  (first_index_by_handle c lo = invalid_index -> from_handle lo (table c) = [])
+  /\ (first_index_by_handle c lo <> invalid_index ->
+      first_index_by_handle c lo < number_of_attributes c
+      /\ skipn (N.to_nat (first_index_by_handle c lo)) (table c) = from_handle lo (table c)).
+Proof.
+  intros Hw Hn. rewrite first_index_by_handle_spec by auto. rewrite <- (table_handles c Hw Hn).
+  pose proof (assign_increasing c) as Hs. rewrite <- (table_handles c Hw Hn) in Hs.
+  pose proof (table_length c Hw Hn) as Hl. pose proof (wf_attr_bound c Hw) as Hb. split.
+  - intros H. apply filter_all_false. intros x Hx.
+    assert (fst x < lo); [|lia]. apply (first_ge_invalid_all_lt (map fst (table c)) lo 0); auto.
+    + rewrite map_length, Hl. unfold invalid_index. lia.
+    + apply in_map. exact Hx.
+  - intros H. destruct (first_ge_range (map fst (table c)) lo 0) as [Hr|Hr]; [congruence|].
+    rewrite map_length, Hl in Hr. split; [lia|].
+    rewrite <- (skipn_first_ge 0 (table c) lo 0 Hs H). repeat f_equal. lia.
+Qed.
+
+Lemma matching_info c lo hi : matching c KInfo lo hi = filter (fun x => fst x <=? hi) (from_handle lo (table c)).
+Proof.
+  unfold matching, from_handle. rewrite filter_filter. apply filter_ext_in'. intros x _. cbn [type_matches]. unfold in_range. apply andb_true_r.
+Qed.
+
+(* ---- what the walk reports *)
+Inductive subseq {A : Type} : list A -> list A -> Prop :=
+| sub_nil l : subseq [] l
+| sub_take x l1 l2 : subseq l1 l2 -> subseq (x :: l1) (x :: l2)
+| sub_skip x l1 l2 : subseq l1 l2 -> subseq l1 (x :: l2).
+
+Lemma subseq_in {A : Type} (l1 l2 : list A) x : subseq l1 l2 -> In x l1 -> In x l2.
+Proof. induction 1; intros Hin; [destruct Hin| |right; auto]. destruct Hin as [<-|Hin]; [left; auto|right; auto]. Qed.
+
+Lemma subseq_increasing p (l1 l2 : list N) : subseq l1 l2 -> increasing_from p l2 = true -> increasing_from p l1 = true.
+Proof.
+  intros H. revert p. induction H; intros p Hs; cbn [increasing_from] in *; auto.
+  - apply andb_true_iff in Hs. destruct Hs as [H1 H2]. rewrite H1. cbn [andb]. auto.
+  - apply andb_true_iff in Hs. destruct Hs as [H1 H2]. apply IHsubseq. apply (increasing_from_weaken x); [lia|auto].
+Qed.
+
+Lemma subseq_map {A B : Type} (f : A -> B) l1 l2 : subseq l1 l2 -> subseq (map f l1) (map f l2).
+Proof. induction 1; cbn [map]; constructor; auto. Qed.
+
+Lemma fi_walk_subseq W e only16 avail : subseq (fi_walk W e only16 avail) (filter (fun x => fst x <=? e) W).
+Proof.
+  revert avail; induction W as [|x t IH]; intros avail; cbn [fi_walk filter]; [constructor|].
+  destruct (fst x <=? e); cbn [andb]; [|constructor].
+  destruct (fsize only16 <=? avail); [|constructor].
+  destruct (Bool.eqb only16 (is16 (snd x))); [apply sub_take|apply sub_skip]; apply IH.
+Qed.
+
+Lemma fi_walk_head x W e avail :
+  fst x <= e -> 18 <= avail -> exists R, fi_walk (x :: W) e (is16 (snd x)) avail = x :: R.
+Proof.
+  intros H1 H2. cbn [fi_walk]. replace (fst x <=? e) with true by lia.
+  replace (fsize (is16 (snd x)) <=? avail) with true by (unfold fsize; destruct (is16 (snd x)); lia).
+  cbn [andb]. rewrite eqb_reflx. eexists. reflexivity.
+Qed.
+
+(* if the attributes in range all have the uuid format of the first one, nothing is left out *)
+Lemma fi_walk_prefix W e only16 avail :
+  (forall x, In x W -> fst x <= e -> is16 (snd x) = only16) ->
+  exists rest, filter (fun x => fst x <=? e) W = fi_walk W e only16 avail ++ rest.
+Proof.
+  revert avail; induction W as [|x t IH]; intros avail Hu; cbn [fi_walk filter]; [exists []; reflexivity|].
+  destruct (fst x <=? e) eqn:E; cbn [andb]; [|eexists; reflexivity].
+  destruct (fsize only16 <=? avail); [|eexists; reflexivity].
+  rewrite (Hu x) by (try (left; reflexivity); lia). rewrite eqb_reflx.
+  destruct (IH (avail - fsize only16)) as [rest Hr]; [intros y Hy; apply Hu; right; auto|].
+  exists rest. cbn [app]. f_equal. exact Hr.
+Qed.
+
+Definition fi_response (c : cfg) (lo hi a0 a1 out_size : N) (r : resp) : Prop :=
+  let not_found := snd r = 5 /\ seg 0 5 (fst r) = [1; 4; a0; a1; 10] in
+  match from_handle lo (table c) with
+  | x :: W =>
+      if fst x <=? hi then
+        snd r <= out_size /\ snd r <= len (fst r)
+        /\ seg 0 (snd r) (fst r) = 5 :: (if is16 (snd x) then 1 else 2) :: flat_map fenc (fi_walk (x :: W) hi (is16 (snd x)) (out_size - 2))
+      else not_found
+  | [] => not_found
+  end.
+
+Theorem find_information_spec c a0 a1 x0 x1 b out_size r :
+  wf c -> no_includes c ->
+  a0 < 256 -> a1 < 256 -> x0 < 256 -> x1 < 256 ->
+  let lo := w16 a0 a1 in let hi := w16 x0 x1 in
+  1 <= lo -> lo <= hi -> 23 <= out_size -> out_size <= len b ->
+  handle_find_information c [4; a0; a1; x0; x1] b out_size = Some r ->
+  fi_response c lo hi a0 a1 out_size r.
+Proof.
+  intros Hw Hn Ha0 Ha1 Hx0 Hx1 lo hi Hlo Hhi Ho Hb H.
+  unfold handle_find_information, check_size_and_handle_range in H.
+  cbn [rd len length N.of_nat] in H.
+  change (rd16 [4; a0; a1; x0; x1] 1) with (Some (a0 + 256 * a1)) in H.
+  change (rd16 [4; a0; a1; x0; x1] 3) with (Some (x0 + 256 * x1)) in H.
+  cbn -[first_index_by_handle error_response collect_handle_uuid_tuples put N.mul attribute_at handle_by_index number_of_attributes] in H.
+  fold (w16 a0 a1) in H. fold (w16 x0 x1) in H. fold lo in H. fold hi in H.
+  replace ((lo =? 0) || (hi <? lo)) with false in H by lia.
+  destruct (from_first_index c lo Hw Hn) as [F1 F2]. unfold fi_response. cbv zeta.
+  destruct (first_index_by_handle c lo =? invalid_index) eqn:Efi.
+  - apply N.eqb_eq in Efi. rewrite (F1 Efi).
+    destruct (error_response 4 err_attribute_not_found lo b out_size) as [r'|] eqn:Ee; [|discriminate].
+    inversion H; subst r'. apply error_response_bytes in Ee; auto; [|lia]. tauto.
+  - apply N.eqb_neq in Efi. destruct (F2 Efi) as [F3 F4]. rewrite <- F4.
+    destruct (table_step c _ Hw Hn F3) as (a & Ha & Hsk & Hin). rewrite Ha in H. rewrite Hsk. cbn [fst snd].
+    fold (is16 a) in H. rewrite is16_erase.
+    destruct (hi <? handle_by_index c (first_index_by_handle c lo)) eqn:Eg.
+    + replace (handle_by_index c (first_index_by_handle c lo) <=? hi) with false by lia.
+      apply error_response_bytes in H; auto; [|lia]. tauto.
+    + replace (handle_by_index c (first_index_by_handle c lo) <=? hi) with true by lia.
+      destruct (put b 0 [5]) as [b1|] eqn:E1; [|discriminate].
+      assert (Hos : negb match out_size with 0 => false | N.pos q => (1 =? q)%positive end = true).
+      { destruct out_size as [|q]; [lia|]. destruct (1 =? q)%positive eqn:E; [apply Pos.eqb_eq in E; lia|reflexivity]. }
+      rewrite Hos in H. clear Hos.
+      destruct (put b1 1 [if is16 a then 1 else 2]) as [b2|] eqn:E2; cbv iota beta in H; [|discriminate].
+      destruct (collect_handle_uuid_tuples _ c _ hi (is16 a) b2 2 out_size) as [[b' out']|] eqn:Ec; cbv iota beta in H; [|discriminate].
+      inversion H; subst r; clear H. cbn [fst snd].
+      pose proof (put_length _ _ _ _ E1) as L1. pose proof (put_length _ _ _ _ E2) as L2.
+      apply fi_loop in Ec; auto; try lia. rewrite Hsk in Ec. destruct Ec as (C1 & C2 & C3 & C4 & C5).
+      repeat split; try lia.
+      rewrite (seg_app 0 2) by lia. rewrite C2, C1, seg_nil. cbn [app].
+      unfold seg at 1. change (N.to_nat (2 - 0)) with 2%nat. cbn [seq map N.to_nat plus].
+      rewrite !(put_nth _ _ _ _ _ E2). cbn [Nat.leb Nat.ltb andb N.to_nat Pos.to_nat Pos.iter_op length plus minus nth].
+      rewrite (put_nth _ _ _ _ _ E1). cbn. reflexivity.
+Qed.
+
+(* ---- Find Information against [matching] *)
+Lemma table_sorted c : wf c -> no_includes c -> increasing_from 0 (map fst (table c)) = true.
+Proof. intros Hw Hn. rewrite table_handles by auto. apply assign_increasing. Qed.
+
+Lemma map_filter_fst (f : N -> bool) (T : list (N * attr)) : map fst (filter (fun x => f (fst x)) T) = filter f (map fst T).
+Proof. induction T as [|x t IH]; cbn [filter map]; [reflexivity|]. destruct (f (fst x)); cbn [map]; rewrite IH; reflexivity. Qed.
+
+Lemma from_handle_sorted c lo : wf c -> no_includes c -> increasing_from 0 (map fst (from_handle lo (table c))) = true.
+Proof.
+  intros Hw Hn. unfold from_handle. rewrite (map_filter_fst (fun h => lo <=? h)). apply increasing_from_filter. apply table_sorted; auto.
+Qed.
+
+(* the first attribute at or behind lo lies behind hi: nothing is in the range *)
+Lemma matching_info_empty c lo hi x W :
+  wf c -> no_includes c -> from_handle lo (table c) = x :: W -> hi < fst x -> matching c KInfo lo hi = [].
+Proof.
+  intros Hw Hn Hf Hx. rewrite matching_info, Hf. pose proof (from_handle_sorted c lo Hw Hn) as Hs. rewrite Hf in Hs.
+  cbn [map increasing_from] in Hs. apply andb_true_iff in Hs. destruct Hs as [_ Hs].
+  apply filter_all_false. intros y [<-|Hy]; [lia|].
+  apply (in_map fst) in Hy. pose proof (increasing_from_lower _ _ _ Hs Hy). lia.
+Qed.
+
+Definition info_hdr (x : N * attr) : N := if is16 (snd x) then 1 else 2.
+
+(* C02 (a), (b) for Find Information: Attribute Not Found iff nothing matches; otherwise the response holds the
+   first matching attribute followed by a SUBSEQUENCE of the remaining ones (in range, ascending, with their
+   types); it is a prefix if the matching attributes all have the uuid format of the first one *)
+Theorem find_information_matching c a0 a1 x0 x1 b out_size r :
+  wf c -> no_includes c ->
+  a0 < 256 -> a1 < 256 -> x0 < 256 -> x1 < 256 ->
+  let lo := w16 a0 a1 in let hi := w16 x0 x1 in
+  1 <= lo -> lo <= hi -> 23 <= out_size -> out_size <= len b ->
+  handle_find_information c [4; a0; a1; x0; x1] b out_size = Some r ->
+  match matching c KInfo lo hi with
+  | [] => snd r = 5 /\ seg 0 5 (fst r) = [1; 4; a0; a1; 10]
+  | x :: M =>
+      exists R, subseq R M
+        /\ snd r <= out_size /\ snd r <= len (fst r)
+        /\ seg 0 (snd r) (fst r) = 5 :: info_hdr x :: flat_map fenc (x :: R)
+        /\ ((forall y, In y M -> is16 (snd y) = is16 (snd x)) -> exists rest, M = R ++ rest)
+  end.
+Proof.
+  intros Hw Hn Ha0 Ha1 Hx0 Hx1 lo hi Hlo Hhi Ho Hb H.
+  apply find_information_spec in H; auto. fold lo hi in H. unfold fi_response in H. cbv zeta in H.
+  destruct (from_handle lo (table c)) as [|x W] eqn:Ef.
+  - rewrite matching_info, Ef. exact H.
+  - destruct (fst x <=? hi) eqn:Ex.
+    + rewrite matching_info, Ef. cbn [filter]. rewrite Ex.
+      destruct (fi_walk_head x W hi (out_size - 2) ltac:(lia) ltac:(lia)) as [R HR].
+      destruct H as (H1 & H2 & H3). rewrite HR in H3.
+      pose proof (fi_walk_subseq (x :: W) hi (is16 (snd x)) (out_size - 2)) as Hsub.
+      rewrite HR in Hsub. cbn [filter] in Hsub. rewrite Ex in Hsub.
+      exists R. repeat split; auto.
+      * inversion Hsub as [| ? ? ? Hs' | ? ? ? Hs']; subst; auto.
+        (* x skipped: impossible, x is in front of everything in the rest *)
+        exfalso. pose proof (from_handle_sorted c lo Hw Hn) as Hs. rewrite Ef in Hs.
+        cbn [map increasing_from] in Hs. apply andb_true_iff in Hs. destruct Hs as [_ Hs].
+        assert (Hin : In x (filter (fun x0 => fst x0 <=? hi) W)) by (eapply subseq_in; eauto; left; reflexivity).
+        apply filter_In in Hin. destruct Hin as [Hin _]. apply (in_map fst) in Hin.
+        pose proof (increasing_from_lower _ _ _ Hs Hin). lia.
+      * intros Hu. destruct (fi_walk_prefix (x :: W) hi (is16 (snd x)) (out_size - 2)) as [rest Hr].
+        { intros y [<-|Hy] Hy2; [reflexivity|]. apply Hu. apply filter_In. split; auto. lia. }
+        rewrite HR in Hr. cbn [filter] in Hr. rewrite Ex in Hr. cbn [app] in Hr. inversion Hr as [Hr']. exists rest. exact Hr'.
+    + rewrite (matching_info_empty c lo hi x W) by (auto; lia). exact H.
+Qed.
+
+(* ---- a client enumerating all attributes with Find Information: exact if all types are 16 bit uuids *)
+Definition fi_responder (c : cfg) (out_size lo hi : N) : option (list N * N) :=
+  match from_handle lo (table c) with
+  | x :: W =>
+      if fst x <=? hi then
+        let hs := map fst (fi_walk (x :: W) hi (is16 (snd x)) (out_size - 2)) in Some (hs, last hs 0)
+      else None
+  | [] => None
+  end.
+
+Theorem fi_discover_all c out_size hi :
+  wf c -> no_includes c -> 23 <= out_size ->
+  (forall x, In x (table c) -> is16 (snd x) = true) ->
+  forall lo, 1 <= lo ->
+    discover_all (S (length (assign c))) (fi_responder c out_size) lo hi = hrange (assign c) lo hi.
+Proof.
+  intros Hw Hn Ho Hu lo Hlo.
+  assert (Hm : forall lo', hrange (assign c) lo' hi = map fst (matching c KInfo lo' hi)).
+  { intros lo'. unfold hrange, matching. rewrite <- (table_handles c Hw Hn).
+    rewrite <- (map_filter_fst (in_range lo' hi)). f_equal. apply filter_ext_in'. intros x _. cbn [type_matches]. rewrite andb_true_r. reflexivity. }
+  apply discover_all_enumerates; auto.
+  - apply assign_increasing.
+  - intros h Hh. pose proof (assign_upper c h Hw Hn Hh). lia.
+  - intros lo' Hl1 Hl2. unfold fi_responder. rewrite Hm.
+    destruct (from_handle lo' (table c)) as [|x W] eqn:Ef.
+    + rewrite matching_info, Ef. reflexivity.
+    + destruct (fst x <=? hi) eqn:Ex.
+      * destruct (fi_walk_head x W hi (out_size - 2) ltac:(lia) ltac:(lia)) as [R HR]. rewrite HR. cbv zeta.
+        destruct (fi_walk_prefix (x :: W) hi (is16 (snd x)) (out_size - 2)) as [rest Hr].
+        { intros y Hy _. assert (In y (table c)).
+          { assert (X : In y (from_handle lo' (table c))) by (rewrite Ef; exact Hy). apply filter_In in X. tauto. }
+          rewrite (Hu y) by auto. symmetry. apply Hu.
+          assert (X : In x (from_handle lo' (table c))) by (rewrite Ef; left; reflexivity). apply filter_In in X. tauto. }
+        rewrite HR in Hr. rewrite matching_info, Ef, Hr.
+        repeat split; [discriminate|lia|intros; lia|].
+        exists (map fst rest). rewrite map_app. reflexivity.
+      * rewrite (matching_info_empty c lo' hi x W) by (auto; lia). reflexivity.
+  - assert (length (hrange (assign c) lo hi) <= length (assign c))%nat by apply filter_len_le. lia.
+Qed.
+
+(* ================================================================== Part D3: Read By Type *)
+From BT Require AttSrv.AttSrvProofsC01.
+
+(* the type filter of the request against the types of the declaration *)
+Lemma filter16_matches u a : u <> internal_128bit_uuid -> uuid_filter_match (F16 u) a = type_matches (KType (U16 u)) (erase a).
+Proof.
+  intros Hu. rewrite erase_matches. cbn [uuid_filter_match type_matches].
+  destruct (attr_uuid a =? internal_128bit_uuid) eqn:E.
+  - apply N.eqb_eq in E. rewrite andb_false_r. symmetry.
+    destruct a as [| | |s ch g k| | |]; cbn [attr_type attr_uuid uuid_eqb] in *; try (apply N.eqb_neq; lia).
+    destruct (c_uuid ch); [apply N.eqb_neq; lia|reflexivity].
+  - rewrite andb_true_r. destruct a as [| | |s ch g k| | |]; cbn [attr_type attr_uuid uuid_eqb] in *; try apply N.eqb_sym.
+    destruct (c_uuid ch); [apply N.eqb_sym|discriminate E].
+Qed.
+
+Lemma filter128_matches bytes a : uuid_filter_match (F128 bytes) a = type_matches (KType (U128 bytes)) (erase a).
+Proof.
+  rewrite erase_matches. cbn [uuid_filter_match type_matches].
+  destruct a as [| | |s ch g k| | |]; cbn [attr_type uuid_eqb]; try reflexivity; destruct (c_uuid ch); reflexivity.
+Qed.
+
+Definition ebytes (e : N * list N) : list N := le16 (fst e) ++ snd e.
+
+(* what collect_attributes has gathered: entries of one size *)
+Definition col_inv (k : collect) (E : list (N * list N)) : Prop :=
+  2 <= co_cur k /\ seg 2 (co_cur k) (co_buf k) = flat_map ebytes E
+  /\ (co_first k = true -> E = []) /\ (co_first k = false -> E <> [] /\ co_size k <= 255)
+  /\ (forall x, In x E -> len (snd x) + 2 = co_size k).
+
+Lemma collect_attribute_step c st cid k e index a st' k' E :
+  collect_attribute c st cid k e index a = Some (st', k') ->
+  col_inv k E -> co_cur k <= e -> e <= len (co_buf k) ->
+  co_cur k' <= e /\ len (co_buf k') = len (co_buf k)
+  /\ (col_inv k' E \/ exists d, col_inv k' (E ++ [(handle_by_index c index, d)])).
+Proof.
+  intros H Hinv Hc He.
+  assert (Hsame : co_cur k <= e /\ len (co_buf k) = len (co_buf k)
+                  /\ (col_inv k E \/ exists d, col_inv k (E ++ [(handle_by_index c index, d)]))) by (repeat split; auto).
+  destruct Hinv as (I1 & I2 & I3 & I4 & I5). unfold collect_attribute in H.
+  destruct (2 <=? e - co_cur k) eqn:E2; [|inversion H; subst; exact Hsame].
+  cbv zeta in H. destruct (access_read c st cid a index 0 _) as [[[st1 rc] d]|] eqn:Ea; [|discriminate].
+  destruct rc; [|inversion H; subst; exact Hsame|inversion H; subst; exact Hsame].
+  destruct (253 <? len d) eqn:E253; [discriminate|].
+  pose proof (AttSrvProofsC01.access_read_len _ _ _ _ _ _ _ _ _ _ Ea) as Hd.
+  destruct (put (co_buf k) (co_cur k + 2) d) as [b1|] eqn:P1; [|discriminate].
+  pose proof (put_length _ _ _ _ P1) as L1. pose proof (put_bound _ _ _ _ P1) as B1.
+  assert (Hmod : (len d + 2) mod 256 = len d + 2) by (apply N.mod_small; lia).
+  assert (Hmod' : len d mod 256 = len d) by (apply N.mod_small; lia).
+  destruct (len d + 2 =? (if co_first k then (len d + 2) mod 256 else co_size k)) eqn:Es.
+  - destruct (put b1 (co_cur k) (le16 (handle_by_index c index))) as [b2|] eqn:P2; [|discriminate].
+    inversion H; subst st' k'; clear H. cbn [co_cur co_buf co_first co_size].
+    pose proof (put_length _ _ _ _ P2) as L2. rewrite Hmod'.
+    split; [lia|]. split; [lia|]. right. exists d. unfold col_inv. cbn [co_cur co_buf co_first co_size].
+    split; [lia|]. split; [|split; [intros X; discriminate X|split]].
+    + rewrite flat_map_app. cbn [flat_map]. rewrite app_nil_r. unfold ebytes at 2. cbn [fst snd].
+      rewrite (seg_app 2 (co_cur k)) by lia. rewrite (seg_app (co_cur k) (co_cur k + 2)) by lia.
+      rewrite (seg_put_other _ _ _ _ 2 (co_cur k) P2) by lia.
+      rewrite (seg_put_other _ _ _ _ 2 (co_cur k) P1) by lia. rewrite I2. f_equal.
+      replace (co_cur k + 2) with (co_cur k + len (le16 (handle_by_index c index))) at 1 by (rewrite le16_len; lia).
+      rewrite (seg_put_self _ _ _ _ P2). f_equal.
+      rewrite (seg_put_other _ _ _ _ (co_cur k + 2) (co_cur k + 2 + len d) P2) by (rewrite le16_len; lia).
+      apply (seg_put_self _ _ _ _ P1).
+    + intros _. split; [destruct E; discriminate|].
+      destruct (co_first k) eqn:Ef; [rewrite Hmod; lia|]. destruct (I4 eq_refl). lia.
+    + intros x Hx. apply in_app_or in Hx. destruct Hx as [Hx|[<-|[]]].
+      * rewrite (I5 x Hx). destruct (co_first k) eqn:Ef; [rewrite (I3 eq_refl) in Hx; destruct Hx|reflexivity].
+      * cbn [snd]. destruct (co_first k); [rewrite Hmod; reflexivity|lia].
+  - inversion H; subst st' k'; clear H. cbn [co_cur co_buf].
+    split; [lia|]. split; [lia|]. left. unfold col_inv. cbn [co_cur co_buf co_first co_size].
+    assert (Hnf : co_first k = false) by (destruct (co_first k); [lia|reflexivity]). rewrite Hnf in *.
+    destruct (I4 eq_refl) as [X Y].
+    split; [lia|]. split; [|split; [intros Z; discriminate Z|split; [intros _; split; assumption|exact I5]]].
+    rewrite (seg_put_other _ _ _ _ 2 (co_cur k) P1) by lia. exact I2.
+Qed.
+
+Lemma attribute_at_beyond c i : number_of_attributes c <= i -> attribute_at c i = None.
+Proof.
+  intros H. pose proof (attribute_at_decl c i) as X. pose proof (decl_attrs_len c) as L. unfold len in L.
+  assert (E : nth_error (decl_attrs c) (N.to_nat i) = None) by (apply nth_error_None; lia).
+  rewrite E in X. destruct (attribute_at c i); [discriminate X|reflexivity].
+Qed.
+
+Lemma aa_loop c cid f e last eh ty : wf c -> no_includes c ->
+  (forall a, uuid_filter_match f a = type_matches (KType ty) (erase a)) ->
+  forall fuel st k index st' k' E,
+  col_inv k E -> co_cur k <= e -> e <= len (co_buf k) ->
+  all_attributes fuel c st cid f k e index last eh = Some (st', k') ->
+  exists E', col_inv k' (E ++ E') /\ co_cur k' <= e /\ len (co_buf k') = len (co_buf k)
+    /\ subseq (map fst E') (map fst (filter (fun x => (fst x <=? eh) && type_matches (KType ty) (snd x)) (skipn (N.to_nat index) (table c)))).
+Proof.
+  intros Hw Hn Hf. induction fuel as [|n IH]; intros st k index st' k' E Hinv Hc He H; cbn [all_attributes] in H.
+  - inversion H; subst. exists []. rewrite app_nil_r. cbn [map].
+    split; [exact Hinv|split; [exact Hc|split; [reflexivity|apply sub_nil]]].
+  - destruct ((index <=? last) && (handle_by_index c index <=? eh)) eqn:Ec.
+    + destruct (index <? number_of_attributes c) eqn:Ei.
+      * destruct (table_step c index Hw Hn ltac:(lia)) as (a & Ha & Hsk & Hin). rewrite Ha in H. rewrite Hsk.
+        cbn [filter fst snd]. rewrite <- Hf. apply andb_true_iff in Ec. destruct Ec as [_ Ec]. rewrite Ec. cbn [andb].
+        destruct (uuid_filter_match f a) eqn:Em.
+        -- destruct (collect_attribute c st cid k e index a) as [[st1 k1]|] eqn:Eca; [|discriminate].
+           apply (collect_attribute_step _ _ _ _ _ _ _ _ _ E) in Eca; auto. destruct Eca as (C1 & C2 & C3).
+           destruct C3 as [C3|[d C3]].
+           ++ apply (IH _ _ _ _ _ _ C3) in H; try lia. destruct H as (E' & I1 & I2 & I3 & I4).
+              exists E'. split; [exact I1|split; [exact I2|split; [lia|]]]. cbn [map]. apply sub_skip. exact I4.
+           ++ apply (IH _ _ _ _ _ _ C3) in H; try lia. destruct H as (E' & I1 & I2 & I3 & I4).
+              exists ((handle_by_index c index, d) :: E'). rewrite <- app_assoc in I1. cbn [app] in I1.
+              split; [exact I1|split; [exact I2|split; [lia|]]]. cbn [map fst]. apply sub_take. exact I4.
+        -- apply (IH _ _ _ _ _ _ Hinv) in H; auto.
+      * rewrite attribute_at_beyond in H by lia. discriminate H.
+    + inversion H; subst. exists []. rewrite app_nil_r. cbn [map].
+      split; [exact Hinv|split; [exact Hc|split; [reflexivity|apply sub_nil]]].
+Qed.
+
+(* the type field of the request and the filter the code builds from it *)
+Lemma make_filter_spec a0 a1 x0 x1 tyb ty :
+  req_type tyb = Some ty -> ty <> U16 internal_128bit_uuid ->
+  let pdu := 8 :: a0 :: a1 :: x0 :: x1 :: tyb in
+  (len pdu = 7 \/ len pdu = 21)
+  /\ exists f, make_uuid_filter pdu (len pdu =? 21) = Some f
+               /\ forall a, uuid_filter_match f a = type_matches (KType ty) (erase a).
+Proof.
+  intros Hr Hne. cbv zeta. unfold req_type in Hr.
+  destruct tyb as [|p [|q [|r0 t]]]; try discriminate Hr.
+  - inversion Hr; subst ty. split; [left; reflexivity|].
+    exists (F16 (w16 p q)). split; [reflexivity|]. intros a. apply filter16_matches. intros X. apply Hne. rewrite X. reflexivity.
+  - destruct (length (p :: q :: r0 :: t) =? 16)%nat eqn:El; [|discriminate Hr]. apply Nat.eqb_eq in El.
+    do 13 (destruct t as [|? t]; [discriminate El|]). destruct t; [|discriminate El].
+    split; [right; reflexivity|].
+    cbn [firstn nth] in Hr. unfold make_uuid_filter.
+    change (len [8; a0; a1; x0; x1; p; q; r0; n; n0; n1; n2; n3; n4; n5; n6; n7; n8; n9; n10; n11] =? 21) with true. cbv iota.
+    change (slice [8; a0; a1; x0; x1; p; q; r0; n; n0; n1; n2; n3; n4; n5; n6; n7; n8; n9; n10; n11] 5 21)
+      with (Some [p; q; r0; n; n0; n1; n2; n3; n4; n5; n6; n7; n8; n9; n10; n11]).
+    cbv beta iota. change (takeN 12 [p; q; r0; n; n0; n1; n2; n3; n4; n5; n6; n7; n8; n9; n10; n11]) with [p; q; r0; n; n0; n1; n2; n3; n4; n5; n6; n7].
+    cbn [nth].
+    destruct (bytes_eqb [p; q; r0; n; n0; n1; n2; n3; n4; n5; n6; n7] base_uuid_prefix && (n10 =? 0) && (n11 =? 0)).
+    + inversion Hr; subst ty.
+      change (rd16 [8; a0; a1; x0; x1; p; q; r0; n; n0; n1; n2; n3; n4; n5; n6; n7; n8; n9; n10; n11] 17) with (Some (n8 + 256 * n9)).
+      exists (F16 (w16 n8 n9)). split; [reflexivity|]. intros a. apply filter16_matches. intros X. apply Hne. rewrite X. reflexivity.
+    + inversion Hr; subst ty. eexists. split; [reflexivity|]. intros a. apply filter128_matches.
 Qed.
